@@ -13,6 +13,7 @@ import (
 	"os"
 	"strconv"
 	"sync"
+	"time"
 )
 
 type replayFile struct {
@@ -145,11 +146,45 @@ func Hash(tag string, parts ...any) [32]byte {
 // Unwind sets the loop unwinding bound for the code executed after the call (intrinsic; native no-op).
 func Unwind(n int) {}
 
-// OnIdle registers a hook the engine runs when the unit under test would block (intrinsic; native no-op).
-func OnIdle(f func()) {}
+var idleHook func()
+
+// OnIdle registers the environment step: the engine runs it whenever the unit under test would block (intrinsic).
+// Natively RunActor calls it whenever the actor goroutine has been quiet for a few milliseconds.
+func OnIdle(f func()) { idleHook = f }
+
+// RunActor runs a single-owner actor loop. Under the engine it is a plain call (the loop is executed synchronously and
+// the idle hook acts as its environment). Natively the loop runs in a goroutine and the idle hook is called from here
+// every few milliseconds until the loop returns: a replay-grade approximation of "whenever the actor is blocked".
+func RunActor(f func()) {
+	if Symbolic() {
+		f()
+		return
+	}
+	done := make(chan struct{})
+	go func() {
+		defer close(done)
+		f()
+	}()
+	for {
+		select {
+		case <-done:
+			return
+		case <-time.After(3 * time.Millisecond):
+			if idleHook != nil {
+				idleHook()
+			}
+		}
+	}
+}
 
 // Symbolic reports whether the harness runs under the symbolic engine (intrinsic returns true).
 func Symbolic() bool { return false }
 
 // SameObject reports whether two pointers/slices/maps may refer to the same memory (intrinsic).
 func SameObject(a, b any) bool { return false }
+
+// TimeAt returns the instant ns nanoseconds after the Unix epoch (intrinsic: the engine models time.Time as that count).
+func TimeAt(ns int64) time.Time { return time.Unix(0, ns).UTC() }
+
+// TimeNs is the inverse of TimeAt (intrinsic).
+func TimeNs(t time.Time) int64 { return t.UnixNano() }
